@@ -45,14 +45,14 @@ func zzvC01Configs(thorough bool) []zzvC01Cfg {
 	}
 	goVers := map[string][]string{"g1": {"go1.21.0"}, "g1g2": {"go1.21.0", "go1.22.0"}}
 	counterSets := map[string][]string{"c": {"c"}, "c:{a,b}": {"c:{a,b}"}, "c:{a}": {"c:{a}"}, "d:{a,b}+c": {"d:{a,b}", "c"}}
-	stackSets := map[string][]string{"s": {"s"}, "nostack": {}}
+	stackSets := map[string][]string{"s": {"s"}, "nostack": {}, "s+c": {"s", "c"}} // "c" is also a plain counter's name
 	rates := []float64{0, 0.25, 1}
 	srates := []float64{0.25, 1}
 	samples := []float64{0, 0.25, 1}
 	for _, pn := range []string{"P1", "P1+P2", "P2+P1", "none"} {
 		for _, gn := range []string{"g1", "g1g2"} {
 			for _, cn := range []string{"c", "c:{a,b}", "c:{a}", "d:{a,b}+c"} {
-				for _, sn := range []string{"s", "nostack"} {
+				for _, sn := range []string{"s", "nostack", "s+c"} {
 					for _, r := range rates {
 						for _, sr := range srates {
 							for _, sample := range samples {
